@@ -126,10 +126,9 @@ def run(chk):
                 "signed with the online keys of the newest or of an older epoch; non-trivial = chain has >=1 hop; "
                 "distinct by scenario")
     chk.assumptions = ["symbolic signatures"]
-    if THEOREMS:
-        chk.proof, fails = C.proof_gate("C02", THEOREMS)
-        for f in fails:
-            chk.broken(f, {"theorem_gate": f})
+    chk.proof, fails = C.proof_gate("C02")
+    for f in fails:
+        chk.broken(f, {"theorem_gate": f})
     C.ensure_harness()
     specs = gen(chk)
     scens, metas = [], []
